@@ -73,6 +73,10 @@ def slow_agent_two_sessions(chk: Check, rng):
     starts from a fresh decision — two calls, scripted actions, expected executed actions computed from the script"""
     for _ in range(1 if chk.tier == "quick" else 4):
         scn = ch.gen_scn(rng, sched="rl", max_batches=2)
+        for _try in range(30):
+            if len(scn.lineup) >= 2:      # with a single sampler every decision is the same action: a stale one could not be told from a fresh one
+                break
+            scn = ch.gen_scn(rng, sched="rl", max_batches=2)
         scn.folder, scn.conv, scn.faults, scn.verbose, scn.agent = False, None, [], False, "scripted"
         k = len(scn.lineup)
         a, b = rng.randint(2, 3), rng.randint(1, 2)
